@@ -305,7 +305,7 @@ func ruleC05LockRead(cx *Ctx) {
 		for _, f := range cx.P.ModuleFuncs() {
 			allInstrs(f, func(in ssa.Instruction) {
 				if isCallTo(in, ctor) {
-					cx.R.Check(eo != nil && origin(outermost(f)) == origin(eo), rule, funcName(f), "iterator "+cname(ctor)+" built by the ordered iterator", cx.P.where(in), "deque iterators are built only inside cache.evictionOrder, whose closure takes the lock and runs maintenance before it enumerates")
+					cx.R.Check(eo != nil && onlyWithin(cx, outermost(f), eo, 0), rule, funcName(f), "iterator "+cname(ctor)+" built by the ordered iterator", cx.P.where(in), "deque iterators are built only inside cache.evictionOrder, whose closure takes the lock and runs maintenance before it enumerates")
 				}
 			})
 		}
@@ -415,4 +415,45 @@ func addressTaken(cx *Ctx, fn *ssa.Function) bool {
 		})
 	}
 	return taken
+}
+
+// onlyWithin: f is `within`, or a helper all of whose call sites in the module lie in functions that are.
+func onlyWithin(cx *Ctx, f, within *ssa.Function, depth int) bool {
+	if origin(f) == origin(within) {
+		return true
+	}
+	if depth > 3 {
+		return false
+	}
+	sites := 0
+	ok := true
+	if addressTaken(cx, f) {
+		// as a value it may only be handed to `within` itself
+		for _, g := range cx.P.ModuleFuncs() {
+			allInstrs(g, func(in ssa.Instruction) {
+				if mc, isMC := in.(*ssa.MakeClosure); isMC {
+					if bm := boundMethod(mc); bm != nil && origin(bm) == origin(f) {
+						sites++
+						if bad := flowsOnlyTo(mc, []*ssa.Function{within}, outermost(g), map[ssa.Value]bool{}); bad != "" {
+							ok = false
+						}
+					}
+				}
+			})
+		}
+		if !ok || sites == 0 {
+			return false
+		}
+	}
+	for _, g := range cx.P.ModuleFuncs() {
+		allInstrs(g, func(in ssa.Instruction) {
+			if isCallTo(in, f) {
+				sites++
+				if !onlyWithin(cx, outermost(g), within, depth+1) {
+					ok = false
+				}
+			}
+		})
+	}
+	return ok && sites > 0
 }
